@@ -15,7 +15,7 @@
 (* the rest of that run is skipped (first deviation wins, so one defect is *)
 (* not reported under unrelated properties).                               *)
 (***************************************************************************)
-EXTENDS DMessages, IOUtils
+EXTENDS DMessages
 
 Rec == ndJsonDeserialize(IOEnv.TRACE)
 
